@@ -131,6 +131,8 @@ AlphaQ6 == {Txt, Sc("script"), Sc("style"), Sc("noscript"), Sc("iframe"), Sc("ob
             St("div"), En("noscript")}
 AlphaQ7 == {Txt, St("span"), En("span"), St("embed"), St("script"), En("script")}   \* inline sibling, then a removed element, then text
 AlphaQ8 == {Txt, St("object"), En("object"), St("title"), En("title"), Sc("title")}   \* specially handled elements inside a removed one
+AlphaQ9 == {Txt, Com, St("script"), En("script")}      \* raw-text element, then text and a comment (the text of the script
+                                                        \* element is also spelled "<!--word": a comment opener that is DATA there)
 AlphaT3 == {Txt, St("object"), En("object"), St("noscript"), En("noscript"), St("title"), En("title"),
             St("td"), En("td"), St("a"), En("a"), St("h2"), En("h2"), St("li"), Sc("br"), St("img")}
 AlphaT  == {Txt, Amp, Com, Cds,
